@@ -152,7 +152,7 @@ def _wrap(rnd, head, toks, width=None):
     return lines
 
 
-def lp_text(m, rnd, names=True):
+def lp_text(m, rnd, names=True, allnamed=False):
     """render model m (well-formed, every column used in obj or a row, no empty rows) as LP-format text"""
     cn = {c: c.name for c in m.cols}
     out = []
@@ -197,7 +197,7 @@ def lp_text(m, rnd, names=True):
             newrows.append(r)
     expected.rows = newrows
     for k, (nm, ents, s, b) in enumerate(rows_out):
-        named = nm is not None and (names or True) and rnd.random() < 0.85
+        named = nm is not None and (allnamed or rnd.random() < 0.85)
         if not named:
             expected.rows[k].name = None
         head = " " + (nm + rnd.choice([": ", ":", " : "]) if named else rnd.choice(["", " ", "   "]))
